@@ -12,6 +12,7 @@ import (
 	"com.tuntun.rangers/node/src/common"
 	"com.tuntun.rangers/node/src/middleware"
 	"com.tuntun.rangers/node/src/middleware/types"
+	"com.tuntun.rangers/node/src/service"
 	"com.tuntun.rangers/node/src/zzverif/evmasm"
 	"com.tuntun.rangers/node/src/zzverif/model"
 	"com.tuntun.rangers/node/src/zzverif/node"
@@ -35,11 +36,11 @@ import (
 // transient storage and pays for its (cold or warm) accesses.
 
 type c12Frame struct {
-	Kind    string   `json:"kind"`            // call callcode delegate static (how the parent calls this frame); root: call
-	Effects []string `json:"fx,omitempty"`    // sstore log pay create
-	End     string   `json:"end"`             // return revert invalid oog stackfault
-	Gas     uint64   `json:"gas,omitempty"`   // explicit gas share (0 = all but 1/64)
-	Kids    []int    `json:"kids,omitempty"`  // indices of child frames
+	Kind    string   `json:"kind"`           // call callcode delegate static (how the parent calls this frame); root: call
+	Effects []string `json:"fx,omitempty"`   // sstore log pay create
+	End     string   `json:"end"`            // return revert invalid oog stackfault
+	Gas     uint64   `json:"gas,omitempty"`  // explicit gas share (0 = all but 1/64)
+	Kids    []int    `json:"kids,omitempty"` // indices of child frames
 }
 
 type c12Plan struct {
@@ -52,6 +53,17 @@ type c12Plan struct {
 	// deployment transaction). Empty: the storage/transient/log variant.
 	CrossKinds []string `json:"cross_kinds,omitempty"`
 	CrossArgs  []int    `json:"cross_args,omitempty"`
+	// FC (failed-creation plans): how the init code of an inner CREATE ends ("small" = succeeds, "big" =
+	// code deposit cannot be paid, "toolarge", "revert", "invalid"), the endowment, whether the init code
+	// pays the sink, and the gas limit of the transaction.
+	FC      string `json:"fc,omitempty"`
+	FCValue uint64 `json:"fc_value,omitempty"`
+	FCPay   bool   `json:"fc_pay,omitempty"`
+	FCGas   uint64 `json:"fc_gas,omitempty"`
+	// SS (stake-opcode plans): "stake" | "unstake" | "unstakeall" executed by a miner-controlling contract
+	// that the root calls by STATICCALL (or, SSPlain, by CALL as a control)
+	SS      string `json:"ss,omitempty"`
+	SSPlain bool   `json:"ss_plain,omitempty"`
 }
 
 type c12 struct{}
@@ -70,17 +82,31 @@ func (c12) Budget(tier string) runner.Budget {
 
 func (c12) Describe() runner.Description {
 	return runner.Description{
-		Rule: "call-tree plans (85%): a seeded tree of 2..14 frames (depth <=5), each a deployed contract with effects (SSTORE of a per-frame slot, LOG1, 1-wei transfer to a sink, CREATE of a 1-byte contract), children called by CALL / CALLCODE / DELEGATECALL / STATICCALL with full or limited gas, and an ending (RETURN, REVERT, INVALID, infinite loop, stack fault); the root gas limit is ample or starved at a seeded point. Every successful frame returns the bitmap of frames of its subtree whose effects must persist; the transaction runs through the real block executor. Oracle: final storage of every frame slot, the ordered receipt logs, sink and contract balances, contract nonces and the set of created accounts equal exactly the effects of the frames in the returned bitmap (failed frames and their subtrees contribute nothing); no frame inside a STATICCALL subtree that has effects may report success and nothing from such a subtree may persist; a failed root leaves the whole state as before except fee/nonce of the sender. Cross-transaction plans (15%): 2-4 identical-shaped transactions in one block, each TLOADs a slot, records it, TSTOREs, touches storage and logs: every transaction must read transient storage empty, pay the same gas (no warm access list inherited), and its receipt must carry exactly its own log; in half of them the transactions only warm ADDRESSES (account-access opcodes, an inner CREATE, a deployment transaction) and every probe transaction not first in the block must use exactly the gas it uses alone in a block on the same parent state. distinct_nontrivial = distinct tree shapes (kinds, endings, effects, gas shares) with at least one failing inner frame.",
+		Rule:        "call-tree plans (85%): a seeded tree of 2..14 frames (depth <=5), each a deployed contract with effects (SSTORE of a per-frame slot, LOG1, 1-wei transfer to a sink, CREATE of a 1-byte contract), children called by CALL / CALLCODE / DELEGATECALL / STATICCALL with full or limited gas, and an ending (RETURN, REVERT, INVALID, infinite loop, stack fault); the root gas limit is ample or starved at a seeded point. Every successful frame returns the bitmap of frames of its subtree whose effects must persist; the transaction runs through the real block executor. Oracle: final storage of every frame slot, the ordered receipt logs, sink and contract balances, contract nonces and the set of created accounts equal exactly the effects of the frames in the returned bitmap (failed frames and their subtrees contribute nothing); no frame inside a STATICCALL subtree that has effects may report success and nothing from such a subtree may persist; a failed root leaves the whole state as before except fee/nonce of the sender. Failed-creation plans (8%): a contract runs an inner CREATE whose init code stores, logs and optionally pays out of its endowment and then ends by returning 1 byte / 200000 bytes (code deposit unpayable at the lower gas limits) / 250000 bytes (over the size limit) / REVERT / INVALID; the creator records what CREATE pushed; if it reported failure no account, storage, balance or log of the creation frame may remain and the endowment is back with the creator. Stake-opcode plans (5%): a contract that is the account of a registered miner executes the node's STAKE / UNSTAKE / UNSTAKEALL opcode inside a STATICCALL (25%: plain CALL as control); its balance and the miner record must be unchanged afterwards. Cross-transaction plans (15%): 2-4 identical-shaped transactions in one block, each TLOADs a slot, records it, TSTOREs, touches storage and logs: every transaction must read transient storage empty, pay the same gas (no warm access list inherited), and its receipt must carry exactly its own log; in half of them the transactions only warm ADDRESSES (account-access opcodes, an inner CREATE, a deployment transaction) and every probe transaction not first in the block must use exactly the gas it uses alone in a block on the same parent state. distinct_nontrivial = distinct tree shapes (kinds, endings, effects, gas shares) with at least one failing inner frame.",
 		Assumptions: []string{"frame effects use per-frame slots/topics so that every observed value is attributable to one frame", "SELFDESTRUCT only as the ending of a CALL-kind frame (its own contract), beneficiary a sink account"},
 		Real:        []string{"vm (EVM call/create/static handling, interpreter, gas)", "executor contract executor", "core/vmexecutor (Prepare, snapshot/revert, receipts)", "storage/account (journal, access list, transient storage, logs)"},
 		Stub:        []string{"ConsensusHelper", "network"},
-		FaultKinds:  []string{"frame_selfdestruct", "gas_starvation_root", "gas_starvation_frame", "frame_revert", "frame_invalid", "frame_oog", "frame_stackfault", "static_context", "same_block_second_tx"},
+		FaultKinds:  []string{"frame_selfdestruct", "gas_starvation_root", "gas_starvation_frame", "frame_revert", "frame_invalid", "frame_oog", "frame_stackfault", "static_context", "same_block_second_tx", "inner_create_small", "inner_create_big", "inner_create_toolarge", "inner_create_revert", "inner_create_invalid", "stake_opcode_stake", "stake_opcode_unstake", "stake_opcode_unstakeall"},
 	}
 }
 
 func (c12) Gen(seed uint64, tier string) json.RawMessage {
 	r := simrt.NewRand(seed)
 	p := c12Plan{Seed: seed, RootGas: 800000000}
+	if r.Chance(0.05) {
+		p.SS = []string{"stake", "unstake", "unstakeall"}[r.Intn(3)]
+		p.SSPlain = r.Chance(0.25)
+		b, _ := json.Marshal(p)
+		return b
+	}
+	if r.Chance(0.08) {
+		p.FC = []string{"small", "big", "big", "toolarge", "revert", "invalid"}[r.Intn(6)]
+		p.FCValue = uint64(r.Intn(3))
+		p.FCPay = p.FCValue > 0 && r.Chance(0.5)
+		p.FCGas = []uint64{60000000, 60000000, 30000000, 12000000}[r.Intn(4)]
+		b, _ := json.Marshal(p)
+		return b
+	}
 	if r.Chance(0.15) {
 		p.Cross = r.Range(2, 4)
 		if r.Chance(0.5) {
@@ -165,7 +191,7 @@ func c12Code(p *c12Plan, i int) []byte {
 		case "pay":
 			c.Push(0).Push(0).Push(0).Push(0).Push(1).PushBytes(c12Sink.Bytes()).Op(evmasm.GAS, evmasm.CALL, evmasm.POP)
 		case "create":
-			c.PushBytes(c12Init).Push(0x60).Op(evmasm.MSTORE).Push(10).Push(0x60 + 22).Push(0).Op(evmasm.CREATE, evmasm.POP)
+			c.PushBytes(c12Init).Push(0x60).Op(evmasm.MSTORE).Push(10).Push(0x60+22).Push(0).Op(evmasm.CREATE, evmasm.POP)
 		}
 	}
 	for _, kid := range f.Kids {
@@ -224,6 +250,12 @@ func (c12) Exec(raw json.RawMessage, st *simrt.Stats, log *simrt.Log) *simrt.Vio
 	n := node.Boot(disk, node.ForksLatestSync, false)
 	ec := newExecChain(n)
 	st.Evaluations++
+	if p.FC != "" {
+		return c12FailedCreate(&p, ec, st, log)
+	}
+	if p.SS != "" {
+		return c12StaticStake(&p, ec, st, log)
+	}
 	if p.Cross > 0 {
 		return c12Cross(&p, ec, st, log)
 	}
@@ -524,7 +556,7 @@ func c12CrossAddr(p *c12Plan, ec *execChain, st *simrt.Stats, log *simrt.Log) *s
 	// (A contract with EMPTY runtime code is avoided on purpose: SetCode hashes it with Keccak-256 while
 	// the account layer's emptyCodeHash is SHA3-256, so a later EXTCODESIZE of it records a database error
 	// that makes the block's Commit fail - see DESIGN.md 13.3, observations.)
-	creator.PushBytes(c12Init).Push(0x60).Op(evmasm.MSTORE).Push(10).Push(0x60 + 22).Push(0).Op(evmasm.CREATE, evmasm.POP)
+	creator.PushBytes(c12Init).Push(0x60).Op(evmasm.MSTORE).Push(10).Push(0x60+22).Push(0).Op(evmasm.CREATE, evmasm.POP)
 	creator.Push(64).Op(evmasm.CALLDATALOAD).Push(32).Push(0).Op(evmasm.LOG1, evmasm.STOP)
 	paddr, caddr := c12Addr(510), c12Addr(511)
 	common.SetBlockHeight(ec.height)
@@ -640,7 +672,7 @@ func c12Cross(p *c12Plan, ec *execChain, st *simrt.Stats, log *simrt.Log) *simrt
 	}
 	// contract T: slot[100 + calldata word] = TLOAD(1) + 1 ; TSTORE(1, 0x77) ; SLOAD(7) ; LOG1(topic = calldata word)
 	var c evmasm.Code
-	c.Push(1).Op(evmasm.TLOAD).Push(1).Op(evmasm.ADD) // v = tload(1)+1
+	c.Push(1).Op(evmasm.TLOAD).Push(1).Op(evmasm.ADD)          // v = tload(1)+1
 	c.Push(0).Op(evmasm.CALLDATALOAD).Push(100).Op(evmasm.ADD) // slot
 	c.Op(evmasm.SSTORE)
 	c.Push(0x77).Push(1).Op(evmasm.TSTORE)
@@ -773,4 +805,214 @@ func (c12) Shrink(raw json.RawMessage) []json.RawMessage {
 		emit(q)
 	}
 	return out
+}
+
+// ---- failed contract creation ----
+
+// c12FailedCreate: a contract F runs an inner CREATE whose init code has effects (SSTORE, LOG1, optionally a
+// payment out of its endowment) and then ends in a seeded way; F records what CREATE pushed. If CREATE
+// reported failure (0), nothing of the creation frame may remain: no account at the would-be address
+// (nonce, code, storage, balance), no log of the init code in the receipt, endowment back with F.
+func c12FailedCreate(p *c12Plan, ec *execChain, st *simrt.Stats, log *simrt.Log) *simrt.Violation {
+	viol := func(ev int, clause, where, f string, a ...interface{}) *simrt.Violation {
+		return simrt.Violationf("C12", clause, where, ev, f, a...)
+	}
+	var init evmasm.Code
+	init.Sstore(1, 0x55).Log1(0xC0DE, 7)
+	if p.FCPay {
+		init.Push(0).Push(0).Push(0).Push(0).Push(1).PushBytes(c12Sink.Bytes()).Op(evmasm.GAS, evmasm.CALL, evmasm.POP)
+	}
+	where := map[string]string{"small": "successful-creation", "big": "code-store-out-of-gas", "toolarge": "code-too-large", "revert": "init-reverted", "invalid": "init-invalid-opcode"}[p.FC]
+	switch p.FC {
+	case "small":
+		init.Push(1).Push(0).Op(evmasm.RETURN)
+	case "big": // 200000 bytes of runtime code (below the size limit): the deposit costs 40M gas or more
+		init.Push(200000).Push(0).Op(evmasm.RETURN)
+	case "toolarge":
+		init.Push(250000).Push(0).Op(evmasm.RETURN)
+	case "revert":
+		init.Push(0).Push(0).Op(evmasm.REVERT)
+	default:
+		init.Op(evmasm.INVALID)
+	}
+	var f evmasm.Code
+	for off := 0; off < len(init); off += 32 {
+		chunk := make([]byte, 32)
+		copy(chunk, init[off:])
+		f.PushBytes(chunk).Push(uint64(0x80 + off)).Op(evmasm.MSTORE)
+	}
+	f.Push(uint64(len(init))).Push(0x80).Push(p.FCValue).Op(evmasm.CREATE)
+	f.Push(1).Op(evmasm.SSTORE)
+	f.Log1(0xF00D, 1).Op(evmasm.STOP)
+	faddr := c12Addr(600)
+	common.SetBlockHeight(ec.height)
+	s0 := ec.state()
+	s0.SetCode(faddr, f)
+	s0.SetNonce(faddr, 1)
+	s0.AddBalance(faddr, big.NewInt(1000))
+	root, err := s0.Commit(true)
+	if err == nil {
+		err = middleware.AccountDBManagerInstance.GetTrieDB().Commit(root, false)
+	}
+	if err != nil {
+		panic(runner.InfraError{Msg: "c12 deploy: " + err.Error()})
+	}
+	ec.root = root
+	pre := ec.state()
+	created := createAddress(faddr, pre.GetNonce(faddr))
+	sinkBefore := pre.GetBalance(c12Sink)
+	st.Fault("inner_create_" + p.FC)
+	tx := node.TxSpec{K: "call", From: 0, To: faddr.GetHexString(), Gas: p.FCGas, Salt: fmt.Sprintf("c12fc-%d", p.Seed)}.Build()
+	receipts, _, _, _ := ec.execBlock(ec.height+1, []*types.Transaction{tx}, true)
+	if len(receipts) != 1 {
+		return viol(0, "no-receipt", "failed-creation", "%d receipts for 1 transaction", len(receipts))
+	}
+	rc := receipts[0]
+	post := ec.state()
+	res := post.GetState(faddr, common.BigToHash(big.NewInt(1)))
+	initLog, ownLog := false, false
+	for _, l := range rc.Logs {
+		if len(l.Topics) == 1 && l.Topics[0] == common.BigToHash(big.NewInt(0xC0DE)) {
+			initLog = true
+		}
+		if len(l.Topics) == 1 && l.Topics[0] == common.BigToHash(big.NewInt(0xF00D)) {
+			ownLog = true
+		}
+	}
+	exists := post.GetNonce(created) != 0 || len(post.GetCode(created)) > 0 || post.GetState(created, common.BigToHash(big.NewInt(1))) != (common.Hash{}) || post.GetBalance(created).Sign() != 0
+	log.Add("fc=%s value=%d pay=%v gas=%d status=%d result=%x exists=%v initlog=%v msg=%.60s", p.FC, p.FCValue, p.FCPay, p.FCGas, rc.Status, res.Bytes()[12:], exists, initLog, rc.Msg)
+	st.State(simrt.HashString(fmt.Sprintf("fc|%s|%d|%v|%d|%v", p.FC, p.FCValue, p.FCPay, p.FCGas, rc.Status)))
+	st.Nontrivial(simrt.HashString(fmt.Sprintf("fc|%s|%d|%v|%d", p.FC, p.FCValue, p.FCPay, p.FCGas)))
+	trace := func() string {
+		return fmt.Sprintf("account %s after the block: nonce %d, %d bytes of code, slot 1 = %x, balance %s; init-code log in the receipt: %v; creator balance %s (1000 before), sink +%s",
+			created.GetHexString()[:12], post.GetNonce(created), len(post.GetCode(created)), post.GetState(created, common.BigToHash(big.NewInt(1))).Bytes()[31:], post.GetBalance(created), initLog,
+			post.GetBalance(faddr), new(big.Int).Sub(post.GetBalance(c12Sink), sinkBefore))
+	}
+	if rc.Status != types.ReceiptStatusSuccessful {
+		// the whole transaction failed (gas): nothing at all may remain
+		if exists || len(rc.Logs) != 0 || post.GetBalance(faddr).Cmp(big.NewInt(1000)) != 0 {
+			return viol(0, "failed-transaction-left-trace", where, "the transaction failed (%s) but left state behind: %s", rc.Msg, trace())
+		}
+		return nil
+	}
+	if !ownLog {
+		return viol(0, "receipt-logs-wrong", "failed-creation", "the creator's own log is missing from the receipt of a successful transaction")
+	}
+	switch {
+	case res == (common.Hash{}):
+		st.Probe("inner_create_reported_failure")
+		if exists || initLog || post.GetBalance(faddr).Cmp(big.NewInt(1000)) != 0 || post.GetBalance(c12Sink).Cmp(sinkBefore) != 0 {
+			return viol(0, "failed-creation-left-trace", where, "CREATE reported failure (pushed 0) but the creation frame left a trace: %s", trace())
+		}
+	case common.BytesToAddress(res.Bytes()) == created:
+		st.Probe("inner_create_reported_success")
+		if post.GetNonce(created) != 1 || !initLog || post.GetState(created, common.BigToHash(big.NewInt(1))) != common.BigToHash(big.NewInt(0x55)) {
+			return viol(0, "successful-creation-incomplete", where, "CREATE reported success but the created account lacks the init code's effects: %s", trace())
+		}
+		if p.FC != "small" && p.FC != "big" {
+			return viol(0, "creation-succeeded-unexpectedly", where, "CREATE reported success although the init code ended with %s", p.FC)
+		}
+		if want := map[string]int{"small": 1, "big": 200000}[p.FC]; len(post.GetCode(created)) != want {
+			return viol(0, "successful-creation-incomplete", where, "CREATE reported success but the account holds %d bytes of code, the init code returned %d", len(post.GetCode(created)), want)
+		}
+	default:
+		return viol(0, "create-result-wrong", where, "CREATE pushed %x, neither 0 nor the address derived from creator and nonce (%s)", res.Bytes()[12:], created.GetHexString())
+	}
+	return nil
+}
+
+// ---- the node's own state-modifying opcodes inside a static call ----
+
+// c12StaticStake: contract S controls a registered miner (it is the miner's account) and executes one of
+// the node's stake opcodes (STAKE / UNSTAKE / UNSTAKEALL: they move S's balance into or out of the miner's
+// stake and schedule refunds); the root calls S by STATICCALL. Nothing executed inside a static call may
+// modify balances or any other state: afterwards S's balance and the miner record must be as before.
+func c12StaticStake(p *c12Plan, ec *execChain, st *simrt.Stats, log *simrt.Log) *simrt.Violation {
+	viol := func(ev int, clause, where, f string, a ...interface{}) *simrt.Violation {
+		return simrt.Violationf("C12", clause, where, ev, f, a...)
+	}
+	saddr, raddr := c12Addr(700), c12Addr(701)
+	five := new(big.Int).Mul(big.NewInt(5), oneToken)
+	var sc evmasm.Code
+	switch p.SS {
+	case "stake":
+		sc.PushBytes(saddr.Bytes()).PushBytes(five.Bytes()).Op(0xee)
+	case "unstake":
+		sc.PushBytes(saddr.Bytes()).PushBytes(five.Bytes()).Op(0xef)
+	default:
+		sc.PushBytes(saddr.Bytes()).Op(0xeb)
+	}
+	sc.Push(0).Op(evmasm.MSTORE).Push(32).Push(0).Op(evmasm.RETURN)
+	var rcode evmasm.Code
+	rcode.Push(32).Push(0x40).Push(0).Push(0)
+	op := byte(evmasm.STATICCALL)
+	if p.SSPlain {
+		rcode.Push(0)
+		op = evmasm.CALL
+	}
+	rcode.PushBytes(saddr.Bytes()).Op(evmasm.GAS, op)
+	rcode.Push(1).Op(evmasm.ADD).Push(2000).Op(evmasm.SSTORE)
+	rcode.Op(evmasm.STOP)
+	common.SetBlockHeight(ec.height)
+	s0 := ec.state()
+	s0.SetCode(saddr, sc)
+	s0.SetNonce(saddr, 1)
+	s0.AddBalance(saddr, tokens(1000))
+	s0.SetCode(raddr, rcode)
+	s0.SetNonce(raddr, 1)
+	root, err := s0.Commit(true)
+	if err == nil {
+		err = middleware.AccountDBManagerInstance.GetTrieDB().Commit(root, false)
+	}
+	if err != nil {
+		panic(runner.InfraError{Msg: "c12 deploy: " + err.Error()})
+	}
+	ec.root = root
+	// a validator whose account is the contract
+	apply := node.TxSpec{K: "apply", From: 0, Miner: 20, MType: 0, Stake: 600, AcctHex: saddr.GetHexString(), Salt: fmt.Sprintf("c12ss-%d", p.Seed)}.Build()
+	rcs, _, _, _ := ec.execBlock(ec.height+1, []*types.Transaction{apply}, true)
+	if len(rcs) != 1 || rcs[0].Status != types.ReceiptStatusSuccessful {
+		st.Probe("stake_opcode_setup_refused")
+		return nil
+	}
+	mid := node.MinerID(20)
+	pre := ec.state()
+	m0 := service.MinerManagerImpl.GetMiner(mid, pre)
+	if m0 == nil {
+		st.Probe("stake_opcode_setup_refused")
+		return nil
+	}
+	bal0 := pre.GetBalance(saddr)
+	tx := node.TxSpec{K: "call", From: 1, To: raddr.GetHexString(), Gas: 60000000, Salt: fmt.Sprintf("c12ssc-%d", p.Seed)}.Build()
+	receipts, _, _, _ := ec.execBlock(ec.height+1, []*types.Transaction{tx}, true)
+	if len(receipts) != 1 {
+		return viol(0, "no-receipt", "stake-opcode", "%d receipts for 1 transaction", len(receipts))
+	}
+	post := ec.state()
+	m1 := service.MinerManagerImpl.GetMiner(mid, post)
+	bal1 := post.GetBalance(saddr)
+	flag := new(big.Int).SetBytes(post.GetState(raddr, common.BigToHash(big.NewInt(2000))).Bytes()).Int64() - 1
+	changed := m1 == nil || m1.Stake != m0.Stake || m1.Status != m0.Status || bal1.Cmp(bal0) != 0
+	desc := "miner removed"
+	if m1 != nil {
+		desc = fmt.Sprintf("stake %d -> %d, status %d -> %d, contract balance %s -> %s", m0.Stake, m1.Stake, m0.Status, m1.Status, bal0, bal1)
+	}
+	log.Add("ss=%s plain=%v status=%d inner-success=%d %s", p.SS, p.SSPlain, receipts[0].Status, flag, desc)
+	st.Fault("stake_opcode_" + p.SS)
+	st.State(simrt.HashString(fmt.Sprintf("ss|%s|%v|%d|%v", p.SS, p.SSPlain, flag, changed)))
+	st.Nontrivial(simrt.HashString(fmt.Sprintf("ss|%s|%v", p.SS, p.SSPlain)))
+	if p.SSPlain {
+		if changed {
+			st.Probe("stake_opcode_effective_in_plain_call")
+		}
+		return nil
+	}
+	st.Fault("static_context")
+	if changed {
+		if flag == 1 {
+			return viol(0, "write-in-static-context-succeeded", p.SS+"-opcode", "the %s opcode executed inside a STATICCALL reported success and modified state: %s", strings.ToUpper(p.SS), desc)
+		}
+		return viol(0, "failed-frame-left-trace", p.SS+"-opcode", "a STATICCALL frame that failed left state behind: %s", desc)
+	}
+	return nil
 }
